@@ -74,17 +74,8 @@ theorem parseAck_sim {σ : Sigma} {k k' : Kcp} (h : Sim σ k k') (sn : U32) :
   · simp only [c, ↓reduceIte]
     exact { h with snd_buf := ackLoop_shift h.snd_buf sn }
 
-/-- The fast-ack loop for `sn` does not compare the timestamp of a never-transmitted segment
-(`xmit = 0`, whose `ts` is still the literal 0 of `newSegment`) with the ACK's timestamp.
-Every ACK of a peer that acknowledges only what it has received satisfies this (untransmitted
-segments are a suffix of `snd_buf` with larger sequence numbers: the loop breaks before them);
-a forged or stale ACK can violate it — see `C12_fastack_fresh_counterexample`. -/
-def fastSafe (sn : U32) : List Seg → Bool
-  | [] => true
-  | s :: rest => decide (itimediff sn s.sn < 0) || ((decide (sn = s.sn) || decide (s.xmit ≠ 0)) && fastSafe sn rest)
-
 theorem fastLoop_shift {σ : Sigma} {l l' : List Seg} (h : All₂ (SndRel σ) l l') (sn ts fr fr' : U32)
-    (hfr : fr' = fr) (hs : fastSafe sn l = true) :
+    (hfr : fr' = fr) :
     All₂ (SndRel σ) (fastLoop sn ts fr l).buf (fastLoop (sn + σ.a) (ts + σ.t) fr' l').buf ∧
       (fastLoop (sn + σ.a) (ts + σ.t) fr' l').fire = (fastLoop sn ts fr l).fire := by
   subst hfr
@@ -92,37 +83,22 @@ theorem fastLoop_shift {σ : Sigma} {l l' : List Seg} (h : All₂ (SndRel σ) l 
   | nil => exact ⟨All₂.nil, rfl⟩
   | @cons s s' t t' hr ht ih =>
     have e1 : itimediff (sn + σ.a) s'.sn = itimediff sn s.sn := by rw [hr.sn, itd_shift]
-    simp only [fastSafe, Bool.or_eq_true, Bool.and_eq_true, decide_eq_true_eq] at hs
     by_cases c1 : itimediff sn s.sn < 0
     · simp only [fastLoop, e1, c1, ↓reduceIte]
       exact ⟨All₂.cons hr ht, trivial⟩
-    have hs' := hs.resolve_left c1
-    have ih' := ih hs'.2
     have e2 : (sn + σ.a ≠ s'.sn ∧ itimediff s'.ts (ts + σ.t) ≤ 0 ∧ s'.fastack ≠ 0xFFFFFFFF#32) ↔
         (sn ≠ s.sn ∧ itimediff s.ts ts ≤ 0 ∧ s.fastack ≠ 0xFFFFFFFF#32) := by
-      by_cases c : sn = s.sn
-      · have c' : sn + σ.a = s'.sn := by rw [hr.sn, c]
-        constructor
-        · intro hh; exact absurd c' hh.1
-        · intro hh; exact absurd c hh.1
-      · have hx : s.xmit ≠ 0 := hs'.1.resolve_left c
-        have c' : ¬ (sn + σ.a = s'.sn) := by rw [hr.sn, eq_shift]; exact c
-        rw [hr.ts hx, itd_shift, hr.fastack]
-        simp only [c, c', ne_eq, not_false_eq_true, true_and]
+      have ea : (sn + σ.a = s'.sn) ↔ (sn = s.sn) := by rw [hr.sn, eq_shift]
+      rw [hr.ts, itd_shift, hr.fastack, Ne, Ne, ea]
     simp only [fastLoop, e1, c1, ↓reduceIte, e2]
     by_cases c2 : sn ≠ s.sn ∧ itimediff s.ts ts ≤ 0 ∧ s.fastack ≠ 0xFFFFFFFF#32
     · simp only [if_pos c2]
-      refine ⟨All₂.cons { hr with fastack := congrArg (· + 1) hr.fastack } ih'.1, ?_⟩
-      simp only [hr.fastack, ih'.2]
+      refine ⟨All₂.cons { hr with fastack := congrArg (· + 1) hr.fastack } ih.1, ?_⟩
+      simp only [hr.fastack, ih.2]
     · simp only [if_neg c2]
-      exact ⟨All₂.cons hr ih'.1, ih'.2⟩
+      exact ⟨All₂.cons hr ih.1, ih.2⟩
 
-/-- `parse_fastack` is safe for `sn` in state `k` -/
-def fastackSafe (k : Kcp) (sn : U32) : Bool :=
-  decide (itimediff sn k.snd_una < 0 ∨ itimediff sn k.snd_nxt ≥ 0) || fastSafe sn k.snd_buf
-
-theorem parseFastack_sim {σ : Sigma} {k k' : Kcp} (h : Sim σ k k') (sn ts : U32)
-    (hs : fastackSafe k sn = true) :
+theorem parseFastack_sim {σ : Sigma} {k k' : Kcp} (h : Sim σ k k') (sn ts : U32) :
     Sim σ (parseFastack k sn ts).1 (parseFastack k' (sn + σ.a) (ts + σ.t)).1 ∧
       (parseFastack k' (sn + σ.a) (ts + σ.t)).2 = (parseFastack k sn ts).2 := by
   unfold parseFastack
@@ -130,8 +106,7 @@ theorem parseFastack_sim {σ : Sigma} {k k' : Kcp} (h : Sim σ k k') (sn ts : U3
   by_cases c : itimediff sn k.snd_una < 0 ∨ itimediff sn k.snd_nxt ≥ 0
   · simp only [c, ↓reduceIte]; exact ⟨h, trivial⟩
   · simp only [c, ↓reduceIte]
-    simp only [fastackSafe, Bool.or_eq_true, decide_eq_true_eq] at hs
-    have hf := fastLoop_shift h.snd_buf sn ts k.fastresend k'.fastresend h.fastresend (hs.resolve_left c)
+    have hf := fastLoop_shift h.snd_buf sn ts k.fastresend k'.fastresend h.fastresend
     exact ⟨{ h with snd_buf := hf.1 }, hf.2⟩
 
 /-! ### update_ack: no sequence number, no timestamp (it is given a difference) -/
